@@ -58,7 +58,7 @@ pub mod q4 {
       relation r2(i64, i64);
       r2(v0, v1) <-- for v9 in 0..2, r2(v0, v1), r2(v9, v1);
       r2(v0, v1) <-- r1(v0, v1), r1(v1, v1);
-      r2(v0, v0) <-- if let Some(v0) = Some(4), r1((v0 + 1), v0), if (v0 == 5);
+      r2(v0, v0) <-- if let Some(v0) = Some(4), r1((v0 + 1), v0), if (v0 == 5), if (v0 <= 6);
       r2(v2, ((*v3) + 1)) <-- r2(v0, v1), r0(v1, v2, v3), r2(v4, ((*v1) + 0)), if let Some(v5) = Some((*v2)), if ((*v3) < 6);
    }
    pub struct Inst { p: Prog, pool: Option<ascent::rayon::ThreadPool> }
@@ -101,7 +101,7 @@ pub mod q8 {
       relation r5(i64);
       r1(v0, v0) <-- r0(v0);
       r2(v1, 3) <-- r1(v0, v1), r5(v2);
-      r1(v0, v0) <-- if let Some(v0) = Some(1), r2(v1, v2);
+      r1(v0, v0) <-- if let Some(v0) = Some(1), r2(v1, v2), if (v0 <= 6);
       r4(v0, v2) <-- r4(v0, v1), r4(v1, v2), r4(v2, v3);
       r4(v0, ((*v0) + 1)) <-- r1(1, v0) if ((*v0) <= 4), if ((*v0) < 6);
       r2(1, 3);
@@ -145,7 +145,7 @@ pub mod q12 {
       relation r1(i64, i64);
       relation r2(i64);
       relation r3(i64);
-      r2(v0) <-- let v0 = 3, r1(v0, v0);
+      r2(v0) <-- let v0 = 3, r1(v0, v0), if (v0 <= 6);
       r2(3) <-- if let Some(v0) = Some(2), r2(v1), r2(v0);
       r2(v0) <-- r1(v0, v1) if ((*v0) < 4), r1(v1, v2) if ((*v2) != (*v1));
       r3(v0) <-- if let Some(v9) = Some(1), r1(v0, v1), r1(v1, v9) let v8 = ((*v0) + 1);
